@@ -234,6 +234,36 @@ def option_map(m, cfg, f, args, t):
     return NotImplemented
 
 
+@prim('std::option::Option::<T>::is_some_and')
+def option_is_some_and(m, cfg, f, args, t):
+    o = refine(m, cfg, t, 0, args[0])
+    if is_variant(o, OPTION, 1):
+        return CallThen(args[1], [o.fields[0]])
+    if is_variant(o, OPTION, 0):
+        return Int.const(0)
+    return NotImplemented
+
+
+@prim('std::option::Option::<T>::is_none_or')
+def option_is_none_or(m, cfg, f, args, t):
+    o = refine(m, cfg, t, 0, args[0])
+    if is_variant(o, OPTION, 1):
+        return CallThen(args[1], [o.fields[0]])
+    if is_variant(o, OPTION, 0):
+        return Int.const(1)
+    return NotImplemented
+
+
+@prim('std::option::Option::<T>::map_or')
+def option_map_or(m, cfg, f, args, t):
+    o = refine(m, cfg, t, 0, args[0])
+    if is_variant(o, OPTION, 1):
+        return CallThen(args[2], [o.fields[0]])
+    if is_variant(o, OPTION, 0):
+        return args[1]
+    return NotImplemented
+
+
 @prim('std::option::Option::<T>::and_then')
 def option_and_then(m, cfg, f, args, t):
     o = refine(m, cfg, t, 0, args[0])
